@@ -16,7 +16,8 @@ Definition path := list step.
 
 Inductive leaf :=
 | LfNull | LfBool (b : bool) | LfInt (z : Z) | LfFloat (r : str) | LfStr (s : str)
-| LfHolo (raw : str)
+| LfHolo (raw : str)              (* a HolographicValue OBJECT left unconverted in a dict tree (CLI copy of the converter);
+                                     never a leaf of a source document: see items_v *)
 | LfEmptyList.
 Inductive cell := CNode | CLeaf (l : leaf).
 Definition item := (path * cell)%type.
@@ -65,7 +66,8 @@ Fixpoint items_v (v : value) : list item :=
   | VInt z => [([], CLeaf (LfInt z))]
   | VFloat r => [([], CLeaf (LfFloat r))]
   | VStr s => [([], CLeaf (LfStr s))]
-  | VHolo r => [([], CLeaf (LfHolo r))]
+  | VHolo r => [([], CLeaf (LfStr r))]      (* a holographic value is contained as its canonical pattern text
+                                               (what the OCTAVE view shows; repair 88905cd exports exactly that) *)
   | VZone c t f => zone_items c t f
   | VList [] => [([], CLeaf LfEmptyList)]
   | VList l => ([], CNode) :: idx_items items_v 0 l
